@@ -15,4 +15,28 @@ TEXT = {
         "level_note": TRUST + " Which of several valid derivations the parser picks is deliberately not constrained.",
         "technique": "property-based testing with a reference-model derivation verifier (rapid)",
     },
+    "C09": {
+        "level_text": "Metamorphic property-based testing: (1) inserting -- at every point of the trailing positional block (including the very end) of generated command lines must not change acceptance or any bound value; (2) for specs 'P -- T' an arbitrary token tail (dash-prefixed tokens, further --, -h after an explicit --) is bound verbatim and in order; (3) a spec-level -- behaves like a command-line -- at that position; each run is also compared with the reference semantics.",
+        "design_ref": "DESIGN.md section 5 (C09)",
+        "level_note": TRUST + " The tail relations are asserted only where no derivation lets the spec-level -- fire in front of a dash-prefixed token (DESIGN.md 3.4c).",
+        "technique": "metamorphic property-based testing (rapid) plus reference-model differential",
+    },
+    "C10": {
+        "level_text": "Metamorphic property-based testing: the same item sequence spelled twice with independently drawn documented spellings and foldings must give identical acceptance and identical bound values, on accepted and rejected lines, inside arbitrary generated specs; each run is also compared with the reference semantics.",
+        "design_ref": "DESIGN.md section 5 (C10)",
+        "level_note": TRUST + " Values satisfy the stated precondition (non-empty, not '-'/'='-prefixed); '-ab=v' is never generated.",
+        "technique": "metamorphic property-based testing (rapid)",
+    },
+    "C11": {
+        "level_text": "Metamorphic property-based testing: swapping one adjacent pair of occurrences of different options (any spelling, folded or two-token) must leave acceptance and all bound values unchanged; each run is also compared with the reference semantics.",
+        "design_ref": "DESIGN.md section 5 (C11)",
+        "level_note": TRUST,
+        "technique": "metamorphic property-based testing (rapid)",
+    },
+    "C12": {
+        "level_text": "Metamorphic property-based testing over configurations: each generated (program, argv) is run with no environment value and with every subset of the options backed by a set, valid variable; acceptance must be monotone, option values identical (specs without --), and the verdict under each subset must equal the reference semantics (which includes: a required absent env-backed option is satisfied; repeated occurrences are not rejected).",
+        "design_ref": "DESIGN.md section 5 (C12)",
+        "level_note": TRUST + " Positional bindings are not compared across subsets (an ambiguous spec may legitimately pick another derivation).",
+        "technique": "metamorphic property-based testing over environment configurations (rapid) plus reference-model differential",
+    },
 }
